@@ -106,6 +106,15 @@ def run(ctx, repo, tier):
                         # guards that are decidable in this concrete context were decided; remaining guards are value-dependent
                         key = (kind, where.split(": ")[0], where)
                         seen.setdefault(key, []).append((nb, no, nt, cart, guards))
+                    # qhull needs at least dim + 2 input points for a 3-D Voronoi diagram: with three or more directions the Cartesian
+                    # mode must hand it enough points for every accepted number of shells (fewer directions may fail there by design)
+                    for ev_ in interp.events:
+                        if ev_[0] == "qhull" and ev_[1] == "scipy.spatial.Voronoi" and ev_[2] is not None and ev_[2].is_const():
+                            ctx.instance("DOM")
+                            if no >= 3 and ev_[2].as_const() < 5:
+                                key = ("QhullError", ev_[3], f"{ev_[3]}: scipy.spatial.Voronoi receives too few points to build a 3-D diagram "
+                                                             "(needs at least 5): QhullError (a RuntimeError, not a deliberate ValueError)")
+                                seen.setdefault(key, []).append((nb, no, nt, cart, (f"{int(ev_[2].as_const())} points",)))
                     # LEN: constant subscripts on exactly known lengths
                     for node, w, ln, ix, guards, what in interp.index_obligations:
                         if ln is None or not ln.is_const() or not ix.is_const():
@@ -145,7 +154,7 @@ def run(ctx, repo, tier):
     ctx.extra["shape_results_checked"] = shape_ok
     ctx.extra["shape_results_not_derived"] = shape_unknown
     ctx.exhaustive = True
-    rule_of = {"AttributeError": "INIT", "IndexError": "LEN", "TypeError": "SIG", "Shape": "LAYOUT"}
+    rule_of = {"AttributeError": "INIT", "IndexError": "LEN", "TypeError": "SIG", "Shape": "LAYOUT", "QhullError": "DOM"}
     for (kind, where, text), ctxs in sorted(seen.items(), key=lambda x: str(x[0])):
         nb, no, nt, cart, guards = ctxs[0]
         sizes = sorted({(c[0], c[1], c[2]) for c in ctxs})
@@ -161,7 +170,7 @@ def run(ctx, repo, tier):
             key = "OPTCMP|molgri/naming.py:GridNameParser.__init__|self.N > 1"
         ctx.violate(rule, f"C19.escape.{kind}", f"{kind} can escape from FullGrid construction / getters "
                     f"({'; '.join(modes)} mode)" if kind != "Shape" else "result of a getter has the wrong shape", where.split(": ")[0] if ": " in where else where,
-                    construct=text[:300], witness=(f"{guards[0]}; " if kind == "Shape" and guards else "") +
+                    construct=text[:300], witness=(f"{guards[0]}; " if kind in ("Shape", "QhullError") and guards else "") +
                     f"sizes (n_b, n_o, n_t) = {sizes[:6]}{' ...' if len(sizes) > 6 else ''}; "
                     f"e.g. FullGrid('{nb}', '{no}', <{nt} radii>, position_grid_cartesian={cart})", key=key)
     if not seen:
